@@ -220,6 +220,8 @@ def fac_id(f):
 
 
 def view(ev):
+    if not isinstance(ev, dict):       # an event that was read back as something else (a replacement text)
+        return [None, None]
     return [ev.get("num"), ev_id(ev)]
 
 
@@ -597,3 +599,302 @@ def dump_file(path):
     o.stderr = io.StringIO()
     rc = dumper.LogDumper().run(o)
     return rc, o.stdout.getvalue(), o.stderr.getvalue()
+
+
+# ------------------------------------------------------------------ JSON fallback chain (lib/LogJson.v)
+class ReallyBad(object):
+    """repr() raises an exception whose own repr() raises"""
+    def __repr__(self):
+        class E(Exception):
+            def __repr__(s):
+                raise RuntimeError("no repr of the exception either")
+        raise E()
+
+
+class JBuilder(object):
+    """value spec -> (python object, Coq term of type pv); keeps the table id -> python object for texts, floats and
+    opaque objects so that the model's answer (which only names them) can be turned back into the real strings.
+
+    spec:  ["none"] ["bool",b] ["int",n] ["pow2",bits] ["negpow2",bits] ["float",x] ["nan"] ["str",s] ["bytes",latin1] ["obj"] ["badstr"]
+           ["badrepr"] ["badboth"] ["reallybad"] ["failure"] ["set",[ints]] ["setbad"]
+           ["list",name,[spec..]] ["tuple",[spec..]] ["dict",name,[[keyspec,spec]..]] ["ref",name] ["deep",n,spec]
+    keyspec: ["str",s] ["int",n] ["pow2",bits] ["float",x] ["bool",b] ["none"] ["bytes",s] ["tuple",[ints]] ["obj"] ["badrepr"]
+    `name` (or None) names a list / dict so that ["ref", name] inside it denotes the container itself."""
+    FIXED_KEYS = {"from": 1, "rx_time": 2, "d": 3, "header": 4, "type": 5, "trigger": 6, "num": 7, "level": 8, "message": 9}
+
+    def __init__(self):
+        self.table = {}
+        self.next = 100
+        self.cid = 1000
+        self.names = {}
+        self.strs = dict(self.FIXED_KEYS)
+        for s, i in self.FIXED_KEYS.items():
+            self.table[i] = s
+
+    def reg(self, obj):
+        if isinstance(obj, str) and obj in self.strs:
+            return self.strs[obj]
+        i = self.next
+        self.next += 1
+        self.table[i] = obj
+        if isinstance(obj, str):
+            self.strs[obj] = i
+        return i
+
+    @staticmethod
+    def z(n):
+        return "(%d)" % n if n < 0 else "%d" % n
+
+    def key(self, ks):
+        k = ks[0]
+        if k == "str":
+            return ks[1], "KStr %d" % self.reg(ks[1])
+        if k == "int":
+            return ks[1], "KInt %s" % self.z(ks[1])
+        if k == "pow2":
+            return 2 ** ks[1], "KInt (Z.shiftl 1 %d)" % ks[1]
+        if k == "float":
+            return ks[1], "KFloat %d" % self.reg(ks[1])
+        if k == "bool":
+            return ks[1], "KBool %s" % ("true" if ks[1] else "false")
+        if k == "none":
+            return None, "KNone"
+        if k == "bytes":
+            o = ks[1].encode("latin-1")
+            return o, "KBytes %d" % self.reg(o)
+        if k == "tuple":
+            o = tuple(ks[1])
+            return o, "KTuple %d" % self.reg(o)
+        if k == "obj":
+            o = Plain()
+            return o, "KObj %d" % self.reg(o)
+        if k == "badrepr":
+            o = BadRepr()
+            return o, "KBadRepr %d" % self.reg(o)
+        raise ValueError(ks)
+
+    def val(self, sp):
+        k = sp[0]
+        if k == "none":
+            return None, "PNone"
+        if k == "bool":
+            return sp[1], "PBool %s" % ("true" if sp[1] else "false")
+        if k == "int":
+            return sp[1], "PInt %s" % self.z(sp[1])
+        if k == "pow2":
+            return 2 ** sp[1], "PInt (Z.shiftl 1 %d)" % sp[1]
+        if k == "negpow2":
+            return -(2 ** sp[1]), "PInt (- (Z.shiftl 1 %d))" % sp[1]
+        if k == "float":
+            return sp[1], "PFloat %d" % self.reg(sp[1])
+        if k == "nan":
+            return float("nan"), "PFloat %d" % self.reg(float("nan"))
+        if k == "str":
+            return sp[1], "PStr %d" % self.reg(sp[1])
+        opaque = {"bytes": ("OBytes", lambda: sp[1].encode("latin-1")), "obj": ("OReprOk", Plain), "badstr": ("OReprOk", BadStr),
+                  "badrepr": ("OReprRaises", BadRepr), "badboth": ("OReprRaises", BadBoth), "reallybad": ("OReallyBad", ReallyBad),
+                  "failure": ("OFailure", lambda: build(["failure"])), "set": ("OReprOk", lambda: set(sp[1])),
+                  "setbad": ("OReprRaises", lambda: {BadRepr()})}
+        if k in opaque:
+            kind, mk = opaque[k]
+            o = mk()
+            return o, "POpaque %s %d" % (kind, self.reg(o))
+        if k == "list":
+            o = []
+            i = self.cid
+            self.cid += 1
+            if sp[1] is not None:
+                self.names[sp[1]] = (o, i)
+            terms = []
+            for x in sp[2]:
+                v, t = self.val(x)
+                o.append(v)
+                terms.append(t)
+            return o, "PList %d [%s]" % (i, "; ".join("(%s)" % t for t in terms))
+        if k == "tuple":
+            i = self.cid
+            self.cid += 1
+            vs = [self.val(x) for x in sp[1]]
+            return tuple(v for v, t in vs), "PTuple %d [%s]" % (i, "; ".join("(%s)" % t for v, t in vs))
+        if k == "dict":
+            o = {}
+            i = self.cid
+            self.cid += 1
+            if sp[1] is not None:
+                self.names[sp[1]] = (o, i)
+            terms = []
+            for ks, x in sp[2]:
+                kk, kt = self.key(ks)
+                v, t = self.val(x)
+                o[kk] = v
+                terms.append("(%s, %s)" % (kt, t))
+            return o, "PDict %d [%s]" % (i, "; ".join(terms))
+        if k == "ref":
+            o, i = self.names[sp[1]]
+            return o, "PBack %d" % i
+        if k == "deep":
+            v, t = self.val(sp[2])
+            for _ in range(sp[1]):
+                v = [v]
+            return v, "PDeep %d (%s)" % (sp[1], t)
+        raise ValueError(sp)
+
+    # ---- the model's answer (token stream, see JSON_DEFS in c18.py) -> python value as json.loads would return it
+    FIXED = {0: "@", 1: "message", 2: "repr", 3: "exception_repr", 4: "str", 5: "traceback", 6: "Failure", 7: "UnJSONable",
+             8: "Unreprable", 9: "ReallyUnreprable"}
+
+    def fixed(self, c, learned):
+        if c in self.FIXED:
+            return self.FIXED[c]
+        if c == 10:
+            return ANYTEXT
+        return learned[c]
+
+    def derived(self, d, s):
+        o = self.table[s]
+        if d == 0:
+            return repr(o)
+        if d == 1:
+            try:
+                repr(o)
+            except Exception as e:
+                return repr(e)
+            return "<repr did not raise>"
+        if d == 2:
+            return str(o)
+        return o.getTraceback()
+
+    def decode(self, toks, learned):
+        pos = [0]
+
+        def nxt():
+            pos[0] += 1
+            return toks[pos[0] - 1]
+
+        def key():
+            t, a = nxt(), nxt()
+            if t == 0:
+                return self.table[a]
+            if t == 1:
+                return str(a)
+            if t == 2:
+                return json.dumps(self.table[a])
+            if t == 3:
+                return "true" if a else "false"
+            if t == 4:
+                return "null"
+            if t == 5:
+                return repr(self.table[a])
+            if t == 6:
+                return self.fixed(a, learned)
+            return "<key the model should never emit>"
+
+        def val():
+            t = nxt()
+            if t == 0:
+                return None
+            if t == 1:
+                return bool(nxt())
+            if t == 2:
+                return nxt()
+            if t in (3, 4):
+                return self.table[nxt()]
+            if t == 5:
+                return self.fixed(nxt(), learned)
+            if t == 6:
+                d = nxt()
+                return self.derived(d, nxt())
+            if t == 7:
+                return [val() for _ in range(nxt())]
+            if t == 8:
+                out = {}
+                for _ in range(nxt()):
+                    k = key()
+                    out[k] = val()
+                return out
+            if t == 9:
+                n = nxt()
+                v = val()
+                for _ in range(n):
+                    v = [v]
+                return v
+            raise ValueError("token %r" % t)
+        v = val()
+        assert pos[0] == len(toks), (pos[0], len(toks))
+        return v
+
+
+class _AnyText(object):
+    def __eq__(self, other):
+        return isinstance(other, str)
+
+    def __ne__(self, other):
+        return not isinstance(other, str)
+
+    def __repr__(self):
+        return "<any text>"
+
+
+ANYTEXT = _AnyText()
+
+
+def same_json(a, b):
+    """equality of two json.loads-style values; NaN equals NaN, ANYTEXT equals every text; iterative on single-element lists"""
+    while isinstance(a, list) and isinstance(b, list) and len(a) == 1 and len(b) == 1:
+        a, b = a[0], b[0]
+    if isinstance(a, float) and isinstance(b, float):
+        return a == b or (a != a and b != b)
+    if isinstance(a, dict) and isinstance(b, dict):
+        return list(a) == list(b) and all(same_json(a[k], b[k]) for k in a)
+    if isinstance(a, list) and isinstance(b, list):
+        return len(a) == len(b) and all(same_json(x, y) for x, y in zip(a, b))
+    if isinstance(a, bool) != isinstance(b, bool):
+        return False
+    if a is ANYTEXT or b is ANYTEXT:
+        return a == b
+    return type(a) == type(b) and a == b
+
+
+def learned_texts():
+    """the replacement texts of the current source, asked from the source itself"""
+    out = {}
+    try:
+        out[13] = flogfile._last_resort(object())
+        out[11] = list(flogfile._last_resort({1: 1}, 1))[0]
+        out[12] = list(flogfile._make_jsonable({BadRepr(): 1}))[0]
+    except Exception:
+        pass
+    for c, dflt in ((11, "<key>"), (12, "<unreprable key>"), (13, "<value that could not be encoded into JSON>")):
+        if not isinstance(out.get(c), str):
+            out[c] = dflt
+    return out
+
+
+def loads_deep(line):
+    """json.loads, also for lines nested deeper than the decoder's recursion budget (peels leading '[' off)"""
+    s = line.decode("utf-8") if isinstance(line, bytes) else line
+    try:
+        return json.loads(s)
+    except RecursionError:
+        import sys
+        old = sys.getrecursionlimit()
+        sys.setrecursionlimit(max(old, s.count("[") + s.count("{") + 1000))
+        try:
+            return json.loads(s)
+        finally:
+            sys.setrecursionlimit(old)
+
+
+def real_serialize(obj, how):
+    """-> ("ok", parsed value) | ("raise", class name); how = "raw" | "wrapper" | "header" """
+    f = io.BytesIO()
+    try:
+        if how == "wrapper":
+            flogfile.serialize_wrapper(f, obj, from_="tub", rx_time=1.5)
+        elif how == "header":
+            flogfile.serialize_header(f, "incident", trigger=obj)
+        else:
+            flogfile.serialize_to_json_utf8(f, obj)
+    except Exception as e:
+        return "raise", type(e).__name__
+    return "ok", loads_deep(f.getvalue())
